@@ -122,10 +122,10 @@ class TypeParser:
                 return union(*[P(e) for e in elts])
             if bname in ('tuple', 'Tuple'):
                 if len(elts) == 2 and isinstance(elts[1], ast.Constant) and elts[1].value is Ellipsis:
-                    return ('seq', P(elts[0]))
+                    return ('seq', P(elts[0]), 'tuple')
                 return ('tuple', tuple(P(e) for e in elts))
             if bname in ('list', 'List', 'Sequence', 'Iterable', 'Collection'):
-                return ('seq', P(elts[0]))
+                return ('seq', P(elts[0]), 'list' if bname in ('list', 'List') else 'tuple')
             if bname == 'DefaultOr':
                 return union(P(elts[0]), DEFAULT_T)
             if bname == 'Literal':
